@@ -87,6 +87,8 @@ pub struct Monitor {
     participant: std::collections::HashSet<K>,
     taint_fbp: bool,
     taint_stale: bool,
+    seen_ids: std::collections::HashSet<u64>,
+    dead_ids: std::collections::HashSet<u64>,
     /// Fb keys whose last completed execution hit a cycle inside its activation
     last_exec_cyclic: std::collections::HashSet<K>,
     pending_cyc: Vec<(K, bool)>,
@@ -116,11 +118,19 @@ impl Monitor {
             participant: Default::default(),
             taint_fbp: false,
             taint_stale: false,
+            seen_ids: Default::default(),
+            dead_ids: Default::default(),
             last_exec_cyclic: Default::default(),
             pending_cyc: Vec::new(),
             rev: 0,
             last_rev_dbg: String::new(),
         }
+    }
+
+    /// Learn the ids of the node inputs of this session.
+    pub fn bind(&mut self, sess: &Sess) {
+        use salsa::plumbing::AsId;
+        self.sub.node_keys = sess.db.cx_arc().tabs().nodes.iter().map(|c| c.as_id().as_bits()).collect();
     }
 
     fn dur_change_since(&self, since: usize) -> bool {
@@ -129,7 +139,11 @@ impl Monitor {
 
     fn justified(&self, k: K, _now: usize) -> Result<(), String> {
         let Some(r) = self.recs.get(&k) else { return Ok(()) };
-        if r.untracked || k.0 == F::Lru || k.0.has_cycle_handling() {
+        if r.untracked || k.0.has_cycle_handling() {
+            return Ok(());
+        }
+        if k.0 == F::Lru && !(self.flags.lru && self.sub.lru.believed_cached(k.1) == Some(true)) {
+            // the value may have been evicted
             return Ok(());
         }
         let since = r.last_valid_op;
@@ -150,6 +164,11 @@ impl Monitor {
                 }
                 Read::Call(k2) => {
                     let Some(r2) = self.recs.get(k2) else { return Ok(()) };
+                    if k2.0 == F::Lru && !(self.flags.lru && self.sub.lru.believed_cached(k2.1) == Some(true)) {
+                        // the callee's value may have been evicted: salsa has nothing to compare
+                        // a recomputed value with, so the caller is re-executed first
+                        return Ok(());
+                    }
                     let loose = matches!(k2.0, F::NoEq | F::Lru) || k2.0.has_cycle_handling();
                     if r2.execs.iter().any(|(op, changed)| *op > since && (*changed || loose)) {
                         return Ok(());
@@ -290,6 +309,7 @@ impl Monitor {
                     }
                 }
                 Rec::Interned { id, .. } => {
+                    self.seen_ids.insert(*id);
                     if let Some(f) = stack.last_mut() {
                         f.reads.push(Read::Int(*id));
                     }
@@ -324,6 +344,27 @@ impl Monitor {
                 Rec::Ev { k: EvK::DidValidateMemo, key: Some(key), .. } => {
                     self.reused += 1;
                     stats.bump("memos_validated_without_execution", 1);
+                    if self.flags.alias {
+                        if let Some(k) = self.s2m.get(key) {
+                            if let Some(rec) = self.recs.get(k) {
+                                for rd in &rec.reads {
+                                    let dead = match rd {
+                                        Read::Int(id) => self.dead_ids.contains(id),
+                                        Read::Fld(id, _) => self.dead_ids.contains(id),
+                                        Read::Call((F::OnTs | F::OnTs2 | F::Sp | F::OnTsc | F::OnIs(_), id)) => self.dead_ids.contains(id),
+                                        _ => false,
+                                    };
+                                    if dead {
+                                        return Err((
+                                            "reused-after-reclaim".into(),
+                                            format!("{k:?} depended on {rd:?}, whose identity has been reclaimed since, but its memo was validated as unchanged"),
+                                        ));
+                                    }
+                                }
+                                stats.bump("validated_memos_checked_for_dead_ids", 1);
+                            }
+                        }
+                    }
                     if let Some(k) = self.s2m.get(key) {
                         if let Some(r) = self.recs.get_mut(k) {
                             r.last_valid_op = i;
@@ -337,8 +378,19 @@ impl Monitor {
                     }
                 }
                 Rec::Ev { k: EvK::DidReuseInterned, key: Some(key), .. } => {
-                    stats.bump("interned_slots_reused", 1);
+                    if !self.flags.intern {
+                        stats.bump("interned_slots_reused", 1);
+                    }
                     self.intern_reuse.push((i, slot_of(key.id)));
+                    // every id previously seen in that slot is dead now
+                    let slot = slot_of(key.id);
+                    for x in self.seen_ids.iter().filter(|x| slot_of(**x) == slot && **x != key.id) {
+                        self.dead_ids.insert(*x);
+                    }
+                    self.seen_ids.insert(key.id);
+                }
+                Rec::Interned { id, .. } if stack.is_empty() => {
+                    self.seen_ids.insert(*id);
                 }
                 Rec::Ev { k: EvK::WillIterate(it), .. } => {
                     stats.bump("cycle_iterations", 1);
@@ -371,6 +423,9 @@ impl Monitor {
             // a discarded struct: forget its field history so that a later struct in the same
             // slot counts as new
             let id = key.id;
+            if self.structs.contains_key(&id) {
+                self.dead_ids.insert(id);
+            }
             if self.structs.remove(&id).is_some() {
                 for w in 0..3u8 {
                     self.fld_hist.remove(&(id, w));
